@@ -313,6 +313,11 @@ def inline_defaults(d, skip=frozenset()):
                 if c["tag"] in ("mj-all", "mj-class"):
                     keep.append(c)
                     continue
+                # an element that names an mj-class ranks the class above the tag default: writing the default on the
+                # element would change the winner, so defaults of such tags stay in the head
+                if any(e["tag"] == c["tag"] and "mj-class" in e["attrs"] and not in_head(d2, e) for e in docgen.walk(d2)):
+                    keep.append(c)
+                    continue
                 for e in docgen.walk(d2):
                     if e["tag"] == c["tag"] and e is not c and not in_head(d2, e):
                         for a, v in c["attrs"].items():
